@@ -84,3 +84,40 @@ def _mk_fixed_class():
             return self
 
     return FixedLenECKey
+
+
+# ------------------------------------------------------------------ delivery handlers: once per frame
+# "each packet's frames are reported acknowledged or lost at most once" (C08) is a statement about the calls the
+# recovery makes into the frame owners.  On real connections those calls are observed through this seam: every
+# delivery handler registered with the packet builder is wrapped (harness side, never in /repo) by a counter; the
+# wrapper passes the call on unchanged and notes a second report for the same frame of the same packet.
+DELIVERED_TWICE = []
+_delivery_watch = []
+
+
+def watch_delivery_handlers():
+    if _delivery_watch:
+        return
+    _delivery_watch.append(True)
+    from aioquic.quic import packet_builder as pb
+
+    orig = pb.QuicPacketBuilder.start_frame
+
+    def start_frame(self, frame_type, capacity=1, handler=None, handler_args=[]):
+        buf = orig(self, frame_type, capacity, handler, handler_args)
+        if handler is not None and self._packet.delivery_handlers:
+            h, args = self._packet.delivery_handlers[-1]
+            packet = self._packet
+            seen = []
+
+            def once(delivery, *a, _h=h):
+                seen.append(getattr(delivery, "name", str(delivery)))
+                if len(seen) > 1:
+                    DELIVERED_TWICE.append((packet.packet_number, getattr(packet.epoch, "value", packet.epoch), int(frame_type), tuple(seen),
+                                            getattr(_h, "__name__", repr(_h))))
+                return _h(delivery, *a)
+
+            self._packet.delivery_handlers[-1] = (once, args)
+        return buf
+
+    pb.QuicPacketBuilder.start_frame = start_frame
